@@ -7,7 +7,6 @@ Local Open Scope list_scope.
 
 Theorem C01_sections_refines :
   forall (a : arena) (key : string) (bs : list dblock),
-         Forall (fun b : dblock => plain_items b = true) bs ->
          exists (st : bst) (t : tree),
            build_document a key bs = Ok st /\
            collect_raw (b_arena st) (Datatypes.length a) = Ok (Some t) /\
@@ -15,7 +14,6 @@ Theorem C01_sections_refines :
 Proof. exact SectionsRefine.sections_refines. Qed.
 Check C01_sections_refines :
   forall (a : arena) (key : string) (bs : list dblock),
-         Forall (fun b : dblock => plain_items b = true) bs ->
          exists (st : bst) (t : tree),
            build_document a key bs = Ok st /\
            collect_raw (b_arena st) (Datatypes.length a) = Ok (Some t) /\
@@ -24,7 +22,6 @@ Print Assumptions C01_sections_refines.
 
 Theorem C01_sections_refines_label :
   forall (a : arena) (key : string) (bs : list dblock),
-         Forall (fun b : dblock => plain_items b = true) bs ->
          exists st : bst,
            build_document a key bs = Ok st /\
            collect_raw (b_arena st) (Datatypes.length a) =
@@ -33,7 +30,6 @@ Theorem C01_sections_refines_label :
 Proof. exact SectionsRefine.sections_refines_label. Qed.
 Check C01_sections_refines_label :
   forall (a : arena) (key : string) (bs : list dblock),
-         Forall (fun b : dblock => plain_items b = true) bs ->
          exists st : bst,
            build_document a key bs = Ok st /\
            collect_raw (b_arena st) (Datatypes.length a) =
@@ -43,7 +39,6 @@ Print Assumptions C01_sections_refines_label.
 
 Theorem C01_sections_refines_ids :
   forall (a : arena) (key : string) (bs : list dblock),
-         Forall (fun b : dblock => plain_items b = true) bs ->
          exists (st : bst) (t : tree),
            build_document a key bs = Ok st /\
            collect_raw (b_arena st) (Datatypes.length a) = Ok (Some t) /\
@@ -52,7 +47,6 @@ Theorem C01_sections_refines_ids :
 Proof. exact SectionsRefine.sections_refines_ids. Qed.
 Check C01_sections_refines_ids :
   forall (a : arena) (key : string) (bs : list dblock),
-         Forall (fun b : dblock => plain_items b = true) bs ->
          exists (st : bst) (t : tree),
            build_document a key bs = Ok st /\
            collect_raw (b_arena st) (Datatypes.length a) = Ok (Some t) /\
@@ -62,7 +56,6 @@ Print Assumptions C01_sections_refines_ids.
 
 Theorem C01_built_conserves :
   forall (a : arena) (key : string) (bs : list dblock),
-         Forall (fun b : dblock => plain_items b = true) bs ->
          exists (st : bst) (t : tree),
            build_document a key bs = Ok st /\
            collect_raw (b_arena st) (Datatypes.length a) = Ok (Some t) /\
@@ -71,7 +64,6 @@ Theorem C01_built_conserves :
 Proof. exact SectionsRefine.built_conserves. Qed.
 Check C01_built_conserves :
   forall (a : arena) (key : string) (bs : list dblock),
-         Forall (fun b : dblock => plain_items b = true) bs ->
          exists (st : bst) (t : tree),
            build_document a key bs = Ok st /\
            collect_raw (b_arena st) (Datatypes.length a) = Ok (Some t) /\
@@ -79,18 +71,17 @@ Check C01_built_conserves :
            flat_map gcontent (project (key_parent key) t) = bscontent (key_parent key) bs.
 Print Assumptions C01_built_conserves.
 
-Theorem C01_itemlead_refuted :
-  exists (bs : list dblock) (st : bst) (t : tree),
-           forallb plain_items bs = false /\
-           build_document [] "n" bs = Ok st /\
-           collect_raw (b_arena st) 0 = Ok (Some t) /\
-           tree_eqb_noid t (spec_tree "n" bs) = false /\ bs = itemlead_witness.
-Proof. exact SectionsRefine.sections_refines_itemlead_refuted. Qed.
-Check C01_itemlead_refuted :
-  exists (bs : list dblock) (st : bst) (t : tree),
-           forallb plain_items bs = false /\
-           build_document [] "n" bs = Ok st /\
-           collect_raw (b_arena st) 0 = Ok (Some t) /\
-           tree_eqb_noid t (spec_tree "n" bs) = false /\ bs = itemlead_witness.
-Print Assumptions C01_itemlead_refuted.
-
+Theorem C01_itemlead :
+  spec_tree "n" itemlead_witness =
+  T None (NDocument "n")
+    [T None NBList [T None (NSection [])
+       [T None NBList [T None (NSection [Str "a"]) [T None (NLeaf [Str "b"]) []]]; T None (NLeaf [Str "c"]) []]]] /\
+  read_back [] "n" itemlead_witness = Ok (Some (label (spec_tree "n" itemlead_witness) 0)).
+Proof. exact SectionsRefine.sections_refines_itemlead. Qed.
+Check C01_itemlead :
+  spec_tree "n" itemlead_witness =
+  T None (NDocument "n")
+    [T None NBList [T None (NSection [])
+       [T None NBList [T None (NSection [Str "a"]) [T None (NLeaf [Str "b"]) []]]; T None (NLeaf [Str "c"]) []]]] /\
+  read_back [] "n" itemlead_witness = Ok (Some (label (spec_tree "n" itemlead_witness) 0)).
+Print Assumptions C01_itemlead.
